@@ -144,9 +144,11 @@ def run(rep, raws, tag, lanes=1, count=None):
     model = vlib.run_model(mlines)
     # a case whose outcome differs from the model's is run AGAIN on its own, up to twice (a loopback listener that is late
     # because this machine is busy lets a short read timeout expire; a client that does something else does so every time)
+    again_budget = 10
     for l in lines:
         cid = l.split(" ", 1)[0]
-        if impl.get(cid, "").split(" ;; ")[:2] != model.get(cid, "").split(" ;; ")[:2] and not impl.get(cid, "").startswith(("CRASH", "ABORT", "HANG", "bind-failed")):
+        if again_budget > 0 and impl.get(cid, "").split(" ;; ")[:2] != model.get(cid, "").split(" ;; ")[:2] and not impl.get(cid, "").startswith(("CRASH", "ABORT", "HANG", "bind-failed")):
+            again_budget -= 1
             for attempt in range(2):
                 io, pa = vlib.run_impl([l], tag=tag + "again")
                 rep.count("measured-again")
